@@ -22,7 +22,7 @@ def async_refs_expr(ctx, e, aliases):
 
 def run(ctx):
     ctx.rule("R10.a", "the body of every `with _syncing(...)` contains no suspension point (await / async for / async with / yield)", floor=3)
-    ctx.rule("R10.b", "every .cancel() on an async_refs entry deregisters it (async_refs.pop(k).cancel()) or is followed, before the next suspension point, by async_refs[k] = <current task>", floor=3)
+    ctx.rule("R10.b", "every .cancel() on an async_refs entry deregisters it (async_refs.pop(k).cancel()) or is followed, before the next suspension point, by async_refs[k] = <current task>", floor=2)
     ctx.rule("R10.d", "in _async_ref, on every path from the entry to a suspension point the entry async_refs[pname] is the current task "
                       "(assigned on that path, or the path condition says running_task is current_task)", floor=1)
     ctx.rule("R10.c", "in reactive.py every write of self._current_ after a suspension point is guarded by `self._current_task is task`, and the task is registered before the first suspension", floor=2)
